@@ -62,15 +62,15 @@ type DescCall struct {
 
 // OpResult is what one operation returned, with its invoke/return stamps.
 type OpResult struct {
-	Task   int     `json:"task"`
-	Index  int     `json:"i"`
-	Op     Op      `json:"op"`
-	Invoke int64   `json:"inv"`
-	Return int64   `json:"ret"`
-	Err    string  `json:"err,omitempty"`
-	Panic  string  `json:"panic,omitempty"`
+	Task   int    `json:"task"`
+	Index  int    `json:"i"`
+	Op     Op     `json:"op"`
+	Invoke int64  `json:"inv"`
+	Return int64  `json:"ret"`
+	Err    string `json:"err,omitempty"`
+	Panic  string `json:"panic,omitempty"`
 	raw    any
-	Val    *Desc   `json:"val,omitempty"`
+	Val    *Desc `json:"val,omitempty"`
 }
 
 // Session is one container plus the contexts attached to it.
